@@ -1234,7 +1234,8 @@ emitinst(struct inst **instp, struct inst **instend)
 		for (first = 1; instp != instend; ++instp) {
 			inst = *instp;
 			if (inst->kind == IVARARG) {
-				fputs(", ...", stdout);
+				fputs(first ? "..." : ", ...", stdout);
+				first = 0;
 				continue;
 			}
 			if (inst->kind != IARG)
